@@ -211,3 +211,39 @@ class from_targeted_lattice_maze:
     raises = {"ValueError": "not reach(m, a, b)"}
     result = CS.SOLVED
     props = ["C02", "C20"]
+
+
+@contract(F, "SolvedMaze.from_lattice_maze")
+class solved_from_lattice_maze:
+    """what the item helper calls: a SolvedMaze with the maze's connection structure and the given solution, its start / end the two ends of the solution;
+    ValueError exactly when the solution is empty or an end lies outside the grid (SolvedMaze.__init__'s contract)"""
+    params = dict(cls=T.ClassT(F, "SolvedMaze"), lattice_maze=T.RecT("LatticeMaze", connection_list=CONN3, generation_meta=T.Const(None)),
+                  solution=T.GridT("int", [None, 2]))
+    lets = dict(m="lattice_maze", n="solution.shape[0]")
+    ensures = {
+        "C03.solved.structure": "same_grid(result.connection_list, m.connection_list) and same_grid(result.solution, solution)",
+        "C03.solved.ends": "n >= 1 and result.start_pos[0] == solution[0][0] and result.start_pos[1] == solution[0][1]"
+        " and result.end_pos[0] == solution[n - 1][0] and result.end_pos[1] == solution[n - 1][1]",
+        "C03.solved.ends-in-grid": "in_grid(m, result.start_pos) and in_grid(m, result.end_pos)",
+    }
+    raises = {"ValueError": "n == 0 or not in_grid(m, solution[0]) or not in_grid(m, solution[n - 1])"}
+    result = CS.SOLVED
+    props = ["C03"]
+
+
+@contract(F, "TargetedLatticeMaze.from_lattice_maze")
+class targeted_from_lattice_maze:
+    """what generate_random_path-free callers and the 'targeted' conversion use: the maze's connection structure with the given ends;
+    ValueError exactly when an end lies outside the grid (the real __post_init__ is executed inside)"""
+    params = dict(cls=T.ClassT(F, "TargetedLatticeMaze"), lattice_maze=T.RecT("LatticeMaze", connection_list=CONN3, generation_meta=T.Const(None)),
+                  start_pos=T.Coord, end_pos=T.Coord)
+    lets = dict(m="lattice_maze")
+    ensures = {
+        "C09.targeted.structure": "same_grid(result.connection_list, m.connection_list)",
+        "C09.targeted.ends": "result.start_pos[0] == start_pos[0] and result.start_pos[1] == start_pos[1]"
+        " and result.end_pos[0] == end_pos[0] and result.end_pos[1] == end_pos[1]",
+        "C09.targeted.ends-in-grid": "in_grid(m, result.start_pos) and in_grid(m, result.end_pos)",
+    }
+    raises = {"ValueError": "not in_grid(m, start_pos) or not in_grid(m, end_pos)"}
+    result = TARGETED
+    props = ["C09"]
